@@ -369,3 +369,57 @@ fn a_entry_complete() {
     assert!(frag_phys::a_entry(j, i) == r);                                  // symmetric
     if i < 255 && j < 255 { assert!(frag_phys::a_entry(i + 1, j + 1) == r); }   // depends on the distance only
 }
+
+// ================================================================ the leaves that the Verus units assume (A-LIFT), on the real text
+mod frag_leaves { use crate::padwing::ChannelId; include!(concat!(env!("VERIF_FRAG_DIR"), "/frag_leaves.rs")); }
+
+#[kani::proof]
+#[kani::unwind(66)]
+fn leaf_adc_sum_concat() {
+    let w: [i16; 64] = kani::any();
+    let mut s: i64 = 0;
+    let mut i = 0;
+    while i < 64 { s += w[i] as i64; i += 1; }
+    assert!(frag_leaves::adc_sum64(&w) as i64 == s);                 // lift_sum: r == sum64(waveform, 64), no overflow
+    let (a, b): ([u8; 4], [u8; 4]) = (kani::any(), kani::any());
+    let v = frag_leaves::adc_concat(a, b);                           // lift_concat: r@ == msw@ + lsw@
+    assert!(v.len() == 8 && v[..4] == a && v[4..] == b);
+}
+#[kani::proof]
+#[kani::unwind(12)]
+fn leaf_pwb_masks() {
+    let s: [u8; 44] = kani::any();
+    assert!(frag_leaves::pwb_mask_sent(&s) == mask80(&s, 24));       // lift_mask_sent: r == mask80(slice@, 24)
+    assert!(frag_leaves::pwb_mask_threshold(&s) == mask80(&s, 34));
+}
+#[kani::proof]
+#[kani::unwind(74)]
+fn leaf_small_vectors() {
+    // lift_waveform: big-endian i16 view of slice[32..32+n]
+    let s: [u8; 38] = kani::any();
+    let n: usize = kani::any();
+    kani::assume(n == 0 || n == 2 || n == 4 || n == 6);
+    let w = frag_leaves::adc_wave(&s, n);
+    assert!(w.len() == n / 2);
+    let mut i = 0;
+    while i < n / 2 { assert!(w[i] as i64 == bei16(&s, 32 + 2 * i)); i += 1; }
+    // lift_samples: little-endian i16 view
+    let d = frag_leaves::pwb_samples(&s[..n]);
+    assert!(d.len() == n / 2);
+    i = 0;
+    while i < n / 2 { assert!(d[i] == lei16(&s, 2 * i)); i += 1; }
+    // lift_ids_*: reversed, through the readout map; no unwrap failure for indices < 79
+    let (x, y, z): (u16, u16, u16) = (kani::any(), kani::any(), kani::any());
+    kani::assume(x < 79 && y < 79 && z < 79);
+    let ids = frag_leaves::pwb_ids(vec![x, y, z]);
+    assert!(ids.len() == 3 && chan_key(ids[0]) == chan_of(z + 1) && chan_key(ids[1]) == chan_of(y + 1) && chan_key(ids[2]) == chan_of(x + 1));
+    // lift_any_nonzero
+    let p: [u8; 3] = kani::any();
+    let k: usize = kani::any();
+    kani::assume(k <= 3);
+    let pv = p[..k].to_vec();
+    let mut any = false;
+    i = 0;
+    while i < k { any = any || p[i] != 0; i += 1; }
+    assert!(frag_leaves::chunk_any_nonzero(&pv) == any);
+}
